@@ -33,7 +33,7 @@ def material_case(draw):
     n = draw(st.integers(1, 6))
     forms = draw(st.lists(st.sampled_from(POOL), min_size=n, max_size=n, unique=True))
     comps = [[f, draw(prop)] for f in forms]
-    op = draw(st.sampled_from([None, None, "add_existing", "add_new", "rmul", "sum", "sum_substance"]))
+    op = draw(st.sampled_from([None, None, "add_existing", "add_new", "rmul", "sum", "sum_substance", "isum"]))
     extra = None
     if op == "add_existing":
         extra = [draw(st.sampled_from(forms)), draw(prop)]
@@ -45,7 +45,7 @@ def material_case(draw):
         extra = [draw(st.sampled_from(POOL)), draw(prop)]
     elif op == "rmul":
         extra = draw(st.sampled_from([2, 3, 0.5, 10, 7]))
-    elif op == "sum":
+    elif op in ("sum", "isum"):
         m = draw(st.integers(1, 3))
         f2 = draw(st.lists(st.sampled_from(POOL), min_size=m, max_size=m, unique=True))
         if draw(st.booleans()):
@@ -209,6 +209,13 @@ def check_material(case, v):
             for f in final:
                 final[f] *= extra
             text = f"{extra} * " + text
+        elif op == "isum":
+            # the augmented spelling of a sum
+            other = build(extra, norm, nat, "dict")
+            mat += other
+            for f, p in extra:
+                final[f] = final.get(f, 0) + p
+            text += f"; m += Material({extra!r})"
         elif op == "sum":
             other = build(extra, norm, nat, "dict")
             left = mat
